@@ -451,7 +451,7 @@ recode_qp(const char *buf, const off_t len)
 			if (buf[off + chunk] == '\r') {
 				chunk++;
 				llen = 0;
-				if (buf[off + chunk] == '\n') {
+				if ((off + (off_t) chunk < len) && (buf[off + chunk] == '\n')) {
 					/* valid CRLF pair, chunk can accumulate further */
 					chunk++;
 				} else {
@@ -503,10 +503,16 @@ recode_qp(const char *buf, const off_t len)
 						sendbuf[idx++] = '0';
 					}
 				}
+				/* no line break is needed if that was the last character */
+				if (off == len)
+					break;
 				sendbuf[idx++] = '=';
 				sendbuf[idx++] = '\r';
 				sendbuf[idx++] = '\n';
 				llen = 0;
+				/* the input position may have changed: check the
+				 * limits and the line endings again */
+				continue;
 			}
 
 			if (!llen && (buf[off + chunk] == '.')) {
@@ -517,9 +523,9 @@ recode_qp(const char *buf, const off_t len)
 				sendbuf[idx++] = '.';
 				chunk = 0;
 			} else if ((buf[off + chunk] == '\t') || (buf[off + chunk] == ' ')) {
-				/* recode whitespace if a linebreak follows */
-				if ((off + (off_t) chunk < len) &&
-						((buf[off + chunk + 1] == '\r') || (buf[off + chunk + 1] == '\n'))) {
+				/* recode whitespace if a linebreak or the end of the data follows */
+				if ((off + (off_t) chunk + 1 == len) ||
+						(buf[off + chunk + 1] == '\r') || (buf[off + chunk + 1] == '\n')) {
 					memcpy(sendbuf + idx, buf + off, chunk);
 					off += chunk;
 					idx += chunk;
@@ -531,13 +537,18 @@ recode_qp(const char *buf, const off_t len)
 						sendbuf[idx++] = '2';
 						sendbuf[idx++] = '0';
 					}
-					sendbuf[idx++] = '\r';
-					sendbuf[idx++] = '\n';
-					if (buf[++off] == '\r')
-						off++;
-					if ((off < len) && (buf[off] == '\n'))
-						off++;
-					llen = 0;
+					off++;
+					if (off < len) {
+						sendbuf[idx++] = '\r';
+						sendbuf[idx++] = '\n';
+						if (buf[off] == '\r')
+							off++;
+						if ((off < len) && (buf[off] == '\n'))
+							off++;
+						llen = 0;
+					} else {
+						llen += 3;
+					}
 					chunk = 0;
 				} else {
 					chunk++;
